@@ -31,6 +31,14 @@ CHECKS = {
              "request matrix before and after every failed command.",
         note="No axioms. The repaired defect D4 (probe loops left running after a host conflict) is kept as a refuted lemma on the pinned variant.",
         technique="Coq proof (case analysis of exec phases under a reachability invariant) + kernel-evaluated correspondence", ref="§7 C06"),
+    "C08": dict(
+        text="Theorems over all byte strings (html/template text escaper = byte-wise map, inertness, round trip, body = function of the escaped "
+             "message) and over all states / command histories of model/Seq.v (stopped => 503-with-message or 200 on GET health, never forwarded; "
+             "redeploys keep the pause state; stop/resume); tied to the router, pause controller, error-page middleware and html/template by a "
+             "kernel-evaluated correspondence run with byte-for-byte 503 bodies (built-in page read from internal/pages/503.html at run time).",
+        note="No axioms. html/template modelled for the text context only; invalid UTF-8 in a stop message is coerced by Go's JSON encoder in the state file (handled explicitly); "
+             "residue: /.well-known/acme-challenge/ paths on automatic-TLS root services are answered by autocert before any policy.",
+        technique="Coq proof (per-byte case analysis, invariants over exec) + kernel-evaluated differential correspondence on a virtual clock", ref="§7 C08"),
     "C10": dict(
         text="Theorems over all cookie header bytes, percentages, allowlists and histories (props/C10.v: exactness, stickiness, monotonicity, "
              "100% total, share bound, float comparison = integer threshold via Flocq, history theorem incl. restart); correspondence: "
@@ -60,6 +68,21 @@ CHECKS = {
         note="No axioms. net/http, ReverseProxy, os temp files modelled not verified. Note: built with Go >= 1.25 the request spill file is never closed "
              "(ReverseProxy wraps the body); the repository pins 1.24.2 where it is.",
         technique="Coq proof (induction over write sequences) + kernel-evaluated differential correspondence", ref="§7 C14"),
+    "C15": dict(
+        text="Theorems on model/ProxyError.v + model/ErrorPage.v (props/C15.v: total classification with the code's precedence; every fault before a "
+             "response header block yields a complete response with status = classification (502/504 for target-side causes); page = custom, else "
+             "built-in, else <h1>; a fault after the header block aborts without an error page; in-flight bookkeeping over an event acceptor: an ended "
+             "request is in no later drain snapshot). Correspondence: fault enumeration with a byte-level scripted TCP target behind the target's own "
+             "http.Transport x buffering x custom pages, through a real Server to a raw TCP client; exact timeout boundary on the virtual clock.",
+        note="No axioms. Which Go error each wire fault produces and how an aborted response looks on the wire are net/http behaviour: enumerated and compared, not proved. "
+             "Two recorded findings (known_findings/C15.json: the target timeout covers neither the dial nor the request write; proposal in fixes/).",
+        technique="Coq proof (case analysis; invariant over an event acceptor) + kernel-evaluated fault-enumeration correspondence with known-finding patterns", ref="§7 C15"),
+    "C16": dict(
+        text="Theorems over all states/requests (redirect incl. host-without-port for every well-formed Host incl. IPv6 literals, refusal), all reachable "
+             "states (inheritance invariant, certificates only for bound TLS root-path services, ACME wildcard refusal); tied to service.go, service_map.go, "
+             "router.go, cert.go and autocert's pre-ACME decisions by correspondence including real Router.GetCertificate calls.",
+        note="No axioms. TLS handshake, ACME exchange and non-ASCII IDNA not modelled; ACME challenge paths are residue. Repaired defect (IPv6 redirect lost brackets) kept as refuted lemma on the pinned function.",
+        technique="Coq proof (per-byte case analysis, invariants over exec) + kernel-evaluated differential correspondence on a virtual clock", ref="§7 C16"),
     "C20": dict(
         text="Theorems on model/Cli.v (props/C20.v: option precedence, atoi/ParseBool, deploy pre-run table, exit rule, list renderer round trip); "
              "correspondence on the BUILT BINARY (run option matrix, deploy validation matrix without a proxy, every client command against a running proxy, list output).",
